@@ -11,8 +11,14 @@
       tag       a rejection names a constraint family the instance really violates and carries its RFC 7950 error-app-tag
       mutation  an instance mutated in exactly one named way is rejected for that reason; a valid-by-construction one is accepted
       order     any sibling order of the input gives the same reply (verdict, error, resulting tree)
+      multi-set under LYD_VALIDATE_MULTI_ERROR the set of reported error families equals the set of violated families whenever no
+                choice has data of two cases (theorem multi_error_set_exact; with two cases only the first is validated)
       routes    built + validated, parsed with validation from XML and from JSON, parsed then validated separately: same
                 verdict, same first error (kind, app-tag), same resulting tree; also with the document's siblings shuffled
+      compiler-guarantee  the schema hypotheses of the theorems (`FullSane`: nothing mandatory directly in a default case nor below
+                non-presence containers there, no default next to mandatory / min-elements, config false inherited, min <= max, distinct
+                names of cases and of sibling data nodes) are what lys_compile refuses: one tiny module per point
+                (validgen.compiler_guarantee_schemas) must be refused, the positive controls must compile
       ops       the same data definitions as rpc input / reply output / notification content (lyd_parse_op + lyd_validate_op, XML and
                 JSON): accepted  <=>  the specification holds on the all-state variant of the schema.  The variant is computed by the
                 model (`Valid.stateVariant`, LyModel/Valid/Ops.lean; theorems `ops_relaxes`, `ops_exact_difference`, `stateVariant_*`,
@@ -115,6 +121,7 @@ def run(cx, nsch=None, nnest=None, nfam=None):
     per = cx.n(5, 20)
     schemas, cases = [], load_corpus(cx)
     witness_f320(cx, cases)
+    compiler_guarantee(cx)
     nnest = cx.n(30, 150) if nnest is None else nnest
     # directed families (validgen.FAMILIES): `nfam` schemas of each, one template per construct of the full schema language
     fams = [f for f in vg.FAMILIES if f[0] not in vg.DISABLED_FAMILIES]
@@ -176,6 +183,26 @@ def witness_f320(cx, cases):
     if r[:2] != ["err", "BadSchema"]:
         cx.fail(COMP, "the source has the F320 check but the module with more leaf-list defaults than max-elements compiles (%s)" % " ".join(r[:2]),
                 dict(vc.schema_payload(s), law="f320-compile", features=features(s)))
+
+
+def compiler_guarantee(cx):
+    """law `compiler-guarantee`: what the schema hypotheses of the Lean theorems exclude, lys_compile refuses (schema registrations only;
+    the harness answers `err BadSchema` for a module it cannot compile, `ok <n> <summary>` otherwise)"""
+    gs = vg.compiler_guarantee_schemas()
+    cx.rule("compiler-guarantee: %d tiny modules, one per point the schema hypotheses of the C02 theorems (FullSane) exclude, must be refused by "
+            "lys_compile; %d positive controls must compile" % (sum(1 for g in gs if not g[2]), sum(1 for g in gs if g[2])))
+    rep = vc.run_impl(cx, HARNESS, [g[1] for g in gs], [])
+    for i, (what, s, must) in enumerate(gs):
+        r = rep.get("S%d" % i, ["err", "NoReply"])
+        if r[:2] == ["err", "Crash"]:
+            continue
+        ok = (r[0] == "ok") if must else (r[:2] == ["err", "BadSchema"])
+        cx.count(("compiler-guarantee", s.name), True,
+                 ("compiler-guarantee: control accepted" if must else "compiler-guarantee: refused") if ok else "compiler-guarantee: VIOLATED")
+        if not ok:
+            cx.fail(COMP, ("lys_compile refuses a schema the C02 theorems admit: %s (%s)" % (what, " ".join(r[:2]))) if must
+                    else "lys_compile accepts a schema the C02 theorems exclude: %s" % what,
+                    {"law": "compiler-guarantee", "yang": s.yang(), "reply": r[:3]})
 
 
 PRUNED = ("drop-mandatory", "drop-choice", "below-min")
@@ -465,6 +492,17 @@ def eval_case(cx, c, ri, spec, routes):
                 cx.fail(COMP, "error-app-tag %s on a %s error (RFC 7950: %s)" % (tag, k, APPTAG.get(k)), payload(c, "apptag", opts=o, impl_kind=k))
             if o == c.base and c.kind in vg.EXPECT and viol == {vg.EXPECT[c.kind][0]}:
                 cx.dist["mutation-caught:" + c.kind] += 1 if k == vg.EXPECT[c.kind][0] else 0
+            # ---- multi-set (theorem multi_error_set_exact): under LYD_VALIDATE_MULTI_ERROR, for a buildable instance in which no choice
+            # has data of two cases, the families libyang reports are exactly the violated ones
+            if o & MULTI and r[1] == "invalid" and viol:
+                got = set(vc.dec_err(t)[0] for t in r[3:])
+                if "DupCase" in viol:
+                    cx.dist["multi-set: DupCase violated (one case validated only), reported %s violated" % ("=" if got == viol else "<")] += 1
+                elif got != viol:
+                    cx.fail(COMP, "under MULTI_ERROR libyang reports %s, the instance violates %s" % (",".join(sorted(got)), ",".join(sorted(viol))),
+                            payload(c, "multi-set", opts=o, impl_kinds=sorted(got), spec=sorted(viol)))
+                else:
+                    cx.dist["multi-set: reported families = violated families"] += 1
         if o == c.base:
             if c.kind is None and not viol:
                 cx.dist["valid-by-construction:" + ("accepted" if accepted else "REJECTED")] += 1
